@@ -52,10 +52,14 @@ def main():
         json.dump(meta, open(f"{d}/meta.json", "w"), indent=1)
         rows.append((name, prop, meta["caught_by"], {c: r["exit"] for c, r in results.items()}))
     sh("cd /verif && ./build.sh all")  # leave no binary built from a patched tree behind
-    with open("/verif/seeded/MATRIX.md", "a" if only else "w") as f:
-        if not only:
-            f.write("# Seeded changes vs. checks (quick tier)\n\n| seeded change | property | caught by | exit codes |\n|---|---|---|---|\n")
-        for name, prop, caught, exits in rows:
-            f.write(f"| {name} | {prop} | {', '.join(caught) or '**missed**'} | {exits} |\n")
+    # MATRIX.md is always rewritten from every meta.json (also after a partial run)
+    with open("/verif/seeded/MATRIX.md", "w") as f:
+        f.write("# Seeded changes vs. checks (quick tier)\n\n| seeded change | property | caught by | exit codes |\n|---|---|---|---|\n")
+        for name in sorted(os.listdir("/verif/seeded")):
+            mp = f"/verif/seeded/{name}/meta.json"
+            if not os.path.isfile(mp): continue
+            m = json.load(open(mp))
+            exits = {c: r["exit"] for c, r in m.get("checks_run", {}).items()}
+            f.write(f"| {name} | {m['breaks_property']} | {', '.join(m.get('caught_by', [])) or '**missed**'} | {exits} |\n")
 
 main()
